@@ -8,9 +8,9 @@ echo "== $NAME: confirming the seeded change in $W"
 T=$(/venv/bin/python -m pytest -q -p no:cacheprovider 2>&1 | tail -1)
 echo "tests with change: $T"
 /venv/bin/python OUT/demo.py > /tmp/seed_demo_with.txt 2>&1; D1=$?
-git stash -q
+git diff -- architecture_simulator > /tmp/sd_$NAME.patch; git checkout -q -- architecture_simulator
 /venv/bin/python OUT/demo.py > /tmp/seed_demo_without.txt 2>&1; D0=$?
-git stash pop -q
+git apply /tmp/sd_$NAME.patch
 echo "demo exit with change: $D1 ; without: $D0"
 mkdir -p /verif/seeded/$NAME
 cp OUT/patch.diff OUT/demo.py /verif/seeded/$NAME/ 2>/dev/null
